@@ -92,6 +92,9 @@ func (e *Ev) Exclude(id string) {
 	e.excluded[id]++
 }
 
+// Excluded returns how often a violation matching the known finding id was suppressed in this case.
+func (e *Ev) Excluded(id string) int { return e.excluded[id] }
+
 // inconclusive marks errors that are the harness's problem, not the property's.
 type inconclusive struct{ err error }
 
